@@ -223,7 +223,9 @@ def build(rng, scale=1):
         g.add("unslice", "r := %s\n\treturn out(r)" % c, PRE_STR + PRE_BS)
     # ---- underef ------------------------------------------------------------------------
     for c, pre in [("(*p).A", ""), ("(*p).PM()", ""), ("(*p).VM()", ""), ("(*p.Next).A", ""), ("(**pp).A", "pp := &p\n\t"), ("(*(*pp)).B", "pp := &p\n\t"), ("(*e.Fp()).A", ""),
-                   ("(*<-ch).A", "ch := make(chan *Rec, 1)\n\tch <- p\n\t"), ("(*&r0).A", "r0 := *p\n\t"), ("(*p).Arr[1]", ""), ("(*ap)[1]", "ap := &p.Arr\n\t"), ("(*ap)[1:2]", "ap := &p.Arr\n\t")]:
+                   ("(*<-ch).A", "ch := make(chan *Rec, 1)\n\tch <- p\n\t"), ("(*&r0).A", "r0 := *p\n\t"), ("(*p).Arr[1]", ""), ("(*ap)[1]", "ap := &p.Arr\n\t"), ("(*ap)[1:2]", "ap := &p.Arr\n\t"),
+                   # a defined pointer type has no methods: only the explicit dereference finds them
+                   ("(*dp).PM()", "type dptr *Rec\n\tvar dp dptr = p\n\t"), ("(*dp).VM()", "type dptr *Rec\n\tvar dp dptr = p\n\t"), ("(*dp).A", "type dptr *Rec\n\tvar dp dptr = p\n\t")]:
         g.add("underef", "p := e.P\n\t_ = p\n\t%sr := %s\n\treturn out(r)" % (pre, c))
     # ---- unlambda / deferUnlambda -------------------------------------------------------
     for lam, call in [("func(a int) int { return one(a) }", "fn(3)"), ("func(a, b int) (int, int) { return two(a, b) }", "out(fn(1, 2))"), ("func(a, b int) (int, int) { return two(b, a) }", "out(fn(1, 2))"),
@@ -233,6 +235,11 @@ def build(rng, scale=1):
         g.add("unlambda", "gv := one\n\tfn := %s\n\tgv = func(a int) int { return -a }\n\t_ = gv\n\treturn out(%s)" % (lam, call))
     for body in ["defer func() { e.Ti(1) }()", "defer func() { useInt(2) }()", "defer func() { gv(3) }()", "defer func() { e.P.PM() }()", "defer func() { useInt(e.I0) }()", "defer func() { e.Ti(e.Fi()) }()"]:
         g.add("deferunlambda", "gv := func(a int) { e.t(out(\"gv\", a)) }\n\t_ = gv\n\t%s\n\tgv = func(a int) { e.t(out(\"gv2\", a)) }\n\te.I0 = 99\n\te.t(\"body\")\n\treturn out(e.I0)" % body)
+    # the callee is a func-typed *field* (of a struct value, through a pointer, two levels deep): it is read when the literal is called
+    for decl, callee in [("h := holder{fn: one}", "h.fn"), ("h := &holder{fn: one}", "h.fn"), ("var h holder\n\th.fn = one", "h.fn"), ("h := struct{ in holder }{holder{fn: one}}", "h.in.fn"), ("h := []holder{{fn: one}}", "h[0].fn")]:
+        g.add("unlambda-field", "type holder struct{ fn func(int) int }\n\t%s\n\tfn := func(a int) int { return %s(a) }\n\t%s = func(a int) int { return -a }\n\treturn out(fn(5))" % (decl, callee, callee))
+    g.add("unlambda-field", "type holder struct{ fn func(int) int }\n\tvar h holder\n\tfn := func(a int) int { return h.fn(a) }\n\th.fn = one\n\treturn out(fn(5))")
+    g.add("unlambda-field", "usage := func() { flag.Usage() }\n\told := flag.Usage\n\tdefer func() { flag.Usage = old }()\n\tflag.Usage = func() { e.t(\"usage B\") }\n\tusage()\n\treturn out(e.I0)")
     # deferred calls of package-level function *variables* (local and of another package)
     g.add("deferunlambda-pkgvar", "old := flag.Usage\n\tdefer func() { flag.Usage = old }()\n\tflag.Usage = func() { e.t(\"usage A\") }\n\tfunc() {\n\t\tdefer func() { flag.Usage() }()\n\t\tflag.Usage = func() { e.t(\"usage B\") }\n\t}()\n\treturn out(e.I0)")
     # operands of type-parameter type (float instantiations: NaN, fractions) inside a generic helper
@@ -446,6 +453,10 @@ def build12(rng, scale=1):
     # caseOrder: a type-parameter case is not an interface case
     g.add("caseorder-typeparam", "return out(§_h[string](e.Any), §_h[Str](e.Any), §_h[int](1), §_h[*MyErr](e.Err))\n}\n\nfunc §_h[P any](x any) string {\n\tswitch x.(type) {\n\tcase P:\n\t\treturn \"first\"\n\tcase int:\n\t\treturn \"second\"\n\tcase error:\n\t\treturn \"third\"\n\t}\n\treturn \"none\"")
     g.add("caseorder-typeparam", "return out(§_h[Str](e.Any), §_h[*PStr](1), §_h[fmt.Stringer](Str{\"a\"}))\n}\n\nfunc §_h[P fmt.Stringer](x any) string {\n\tswitch x.(type) {\n\tcase P:\n\t\treturn \"first\"\n\tcase Str:\n\t\treturn \"second\"\n\tcase int:\n\t\treturn \"third\"\n\t}\n\treturn \"none\"")
+    # caseOrder: types that print alike are not the same type (type parameters of two functions, local types of two functions);
+    # the dead one comes first, the live one after it
+    g.add("caseorder-lookalike", "return out(§_h1[Str](e.Any), §_h1[Str](Str{\"a\"}), §_h2[int](1), §_h2[Str](2), §_h2[bool](true))\n}\n\nfunc §_h1[P fmt.Stringer](x any) string {\n\tswitch x.(type) {\n\tcase fmt.Stringer:\n\t\treturn \"first\"\n\tcase P:\n\t\treturn \"second\"\n\t}\n\treturn \"none\"\n}\n\nfunc §_h2[P any](x any) string {\n\tswitch x.(type) {\n\tcase fmt.Stringer:\n\t\treturn \"first\"\n\tcase P:\n\t\treturn \"second\"\n\t}\n\treturn \"none\"")
+    g.add("caseorder-lookalike", "return out(§_h1(), §_h2())\n}\n\nfunc §_h1() string {\n\ttype box struct{ fmt.Stringer }\n\tvar x any = box{Str{\"a\"}}\n\tswitch x.(type) {\n\tcase fmt.Stringer:\n\t\treturn \"first\"\n\tcase box:\n\t\treturn \"second\"\n\t}\n\treturn \"none\"\n}\n\nfunc §_h2() string {\n\ttype box struct{ n int }\n\tvar x any = box{1}\n\tswitch x.(type) {\n\tcase fmt.Stringer:\n\t\treturn \"first\"\n\tcase box:\n\t\treturn \"second\"\n\t}\n\treturn \"none\"")
     # badCond: textually equal operands of different types (untyped shifts take the other operand's type)
     g.add("badcond-untyped-shift", "sh := uint(e.I0&7) + 8\n\tr := 1<<sh < int8(100) && 1<<sh > int64(200)\n\treturn out(r)")
     g.add("badcond-untyped-shift", "sh := uint(8)\n\tr := 1<<sh < uint8(3) && 1<<sh > 5\n\treturn out(r)")
